@@ -770,16 +770,7 @@ def f_latin1_echo(case, obs, failure):
     return failure['reply'][0] == 'error_' + raw[0] and (failure['reply'][1] or None) == (raw[1] or None)
 
 
-def f_ident_alias(case, obs, failure):
-    """the internal handler name _ident is accepted as a request action and answered like *IDN?"""
-    ln = _line_of(failure)
-    if failure['class'] != 'reply-mismatch' or ln is None:
-        return False
-    rq = spec_parse(ln)
-    return rq['wellformed'] and rq['action'] == '_ident' and failure['reply'][0].startswith(IDENT_PREFIXES)
-
-
-FINDING_CLASSIFIERS = {'latin1_echo': f_latin1_echo, 'ident_alias': f_ident_alias}
+FINDING_CLASSIFIERS = {'latin1_echo': f_latin1_echo}
 
 
 # ------------------------------------------------------------------ encoding into Gallina
